@@ -82,7 +82,7 @@ def gen_seqs(tier, rng):
     return seqs
 
 
-async def run_seq(pio, root, seq):
+async def run_seq(pio, root, seq, flush=True):
     """Execute one operation sequence on backend instance pio rooted at root; returns observed records."""
     out = []
     handles = {}
@@ -117,7 +117,8 @@ async def run_seq(pio, root, seq):
                 await pio.seek(handles[o["h"]], o["off"])
             elif op == "write":
                 await pio.write(handles[o["h"]], bytes(o["data"]))
-                handles[o["h"]].flush()
+                if flush:   # (the contract run makes written bytes visible at once; the raw run leaves buffering to the backend)
+                    handles[o["h"]].flush()
             elif op == "read":
                 rec["got"] = list(await pio.read(handles[o["h"]], o["n"]))
             elif op == "close":
@@ -160,6 +161,30 @@ def api_level(chk, tier, rng):
                 pio = pathio.PathIO() if name == "path" else pathio.AsyncPathIO(executor=spyfs.InlineExecutor())
                 recs[name].append(loop.run_until_complete(run_seq(pio, root, seq)))
                 shutil.rmtree(root, ignore_errors=True)
+        loop.close()
+    finally:
+        shutil.rmtree(base, ignore_errors=True)
+    # (a0) the same sequences without any help from the harness (no flush after a write): what a second look at a file that is
+    #      still open for writing sees must also be the same on both backends
+    raw = [(i, seq) for i, seq in enumerate(seqs) if any(o["op"] == "write" for o in seq)]
+    base = tempfile.mkdtemp(prefix="verif-c18-")
+    try:
+        loop = asyncio.new_event_loop()
+        for i, seq in raw:
+            got = {}
+            for name in ("path", "async"):
+                root = pathlib.Path(base, "%sraw%d" % (name, i))
+                root.mkdir()
+                populate(root)
+                pio = pathio.PathIO() if name == "path" else pathio.AsyncPathIO(executor=spyfs.InlineExecutor())
+                got[name] = loop.run_until_complete(run_seq(pio, root, seq, flush=False))
+                shutil.rmtree(root, ignore_errors=True)
+            chk.cov["evaluations"] += 1
+            if got["path"] != got["async"]:
+                a, b = got["path"], got["async"]
+                k = next((j for j in range(min(len(a), len(b))) if a[j] != b[j]), min(len(a), len(b)))
+                chk.violation({"at": "api-differential-unflushed", "op": (a[k] if k < len(a) else {}).get("op")},
+                              {"path": a[k] if k < len(a) else None, "async": b[k] if k < len(b) else None}, {"sequence": seq})
         loop.close()
     finally:
         shutil.rmtree(base, ignore_errors=True)
